@@ -58,12 +58,13 @@ def blocks(n, size):
 
 
 def generate(rng, tier) -> dict:
-    if rng.random() < (0.001 if tier == "quick" else 0.004):
-        # a LONG stream (counts beyond 2^16 / 2^24, where a narrow counter or a float32 running sum gives out)
-        n = rng.choice([(1 << 16) + 3, (1 << 16) + 3, (1 << 24) + 7])
-        k = rng.choice([1, n // 3, n - 1])
-        size = rng.choice([1 << 12, 1 << 16, 1000003])
-        return {"n": n, "nchans": 1, "mode": rng.choice(["basic", "full"]), "family": rng.choice(["onebit", "smallint", "gauss", "gauss-bigmean"]),
+    if rng.random() < (0.004 if tier == "quick" else 0.008):
+        # a LONG stream (counts beyond 2^16 / 2^24, products of counts beyond 2^31: where a narrow counter, an integer
+        # product or a float32 running sum gives out); non-stationary levels make the cross terms of a merge matter
+        n = rng.choice([(1 << 16) + 3, 200003, 200003, 200003, 400009, 400009, (1 << 24) + 7])
+        k = rng.choice([1, n // 3, n // 2, n - 1])
+        size = rng.choice([1 << 12, 1 << 14, 1 << 16, 100000, 1000003])
+        return {"n": n, "nchans": 1, "mode": rng.choice(["basic", "full"]), "family": rng.choice(["onebit", "smallint", "gauss", "gauss-bigmean", "step", "step", "step"]),
                 "dseed": rng.randrange(1 << 30), "chunks": blocks(n, size), "k": k, "chunks_a": blocks(k, size), "chunks_b": blocks(n - k, size),
                 "order": rng.choice(["ab", "ba", "a+=b"]), "tail": 0, "chunks_c": [1], "reuse": rng.random() < 0.4, "long": True}
     n = rng.choice([1, 2, 3, rng.randint(1, 30), rng.randint(1, 400 if tier == "quick" else 2000)])
